@@ -317,10 +317,21 @@ pub fn run(ctx: &Ctx) -> i32 {
         let (a, b) = (rep.counter("record_cost_fail"), rep.counter("record_cost_ok"));
         rep.floor("failed charges", a, 100);
         rep.floor("successful charges", b, 100);
+        // online part: the meter of every frame of the generated workloads, watched at every step
+        // (remaining never grows inside a frame except by at most what a child was given; remaining
+        // never exceeds the limit)
+        if ctx.lane != "miri" {
+            let mut r2 = super::online_props::run_c13_online(ctx);
+            super::online::keep_only(&mut r2, "C13");
+            let steps = r2.counter("events/step");
+            r2.evaluations = 0;
+            rep.merge(r2);
+            rep.floor("interpreter steps watched by the online gas monitor", steps, 50_000);
+        }
     }
     finish(ctx, rep, Finish {
         level: "exploration",
-        rule: "random operation sequences (1..40 ops) on revm_interpreter::Gas against an i128 model; arguments from {0,1,limit±1,remaining±1,2^63,2^64-1,random}; erase_cost only with x <= spent and refund totals >= 0 at set_final_refund (frame discipline); non-trivial = >=4 ops with >=1 charge; distinct by hash of the op list".into(),
+        rule: "random operation sequences (1..40 ops) on revm_interpreter::Gas against an i128 model; arguments from {0,1,limit±1,remaining±1,2^63,2^64-1,random}; erase_cost only with x <= spent and refund totals >= 0 at set_final_refund (frame discipline); non-trivial = >=4 ops with >=1 charge; distinct by hash of the op list. Online part: on the generated transaction workloads (all SpecIds, EOF containers under OSAKA) the inspector-based monitor reads the meter of every frame at every step and step_end: remaining <= limit, no instruction increases remaining, and after a child frame returns remaining grows by at most the gas that child was given".into(),
         assumptions: vec!["erase_cost beyond what was charged and refund totals outside i64 are outside the property's domain and are not generated".into()],
     })
 }
